@@ -199,8 +199,23 @@ def _has_rollback(mi):
                 t = unparse(h.type) if h.type is not None else ''
                 catches = h.type is None or any(x in t for x in ('Exception', 'KeyError', 'BaseException'))
                 reraises = any(isinstance(s, ast.Raise) and s.exc is None for s in ast.walk(h))
-                if catches and 'rm_key' in hsrc and reraises:
-                    return True, 'rollback handler present'
+                if not (catches and reraises):
+                    continue
+                # the undo loop walks the references recorded so far and removes each (index, key) pair it names
+                collected = {unparse(c.func.value) for c in calls_in(n, 'extend') + calls_in(n, 'append')
+                             if any(c is x for s in n.body for x in ast.walk(s))}
+                for lp in [x for x in ast.walk(h) if isinstance(x, ast.For) and isinstance(x.target, ast.Name)]:
+                    if unparse(lp.iter) not in collected:
+                        continue
+                    v = lp.target.id
+                    for c in calls_in(lp, 'rm_key'):
+                        recv, args = c.func.value, c.args
+                        if isinstance(recv, ast.Attribute) and isinstance(recv.value, ast.Name) and recv.value.id == v \
+                                and len(args) == 2 and isinstance(args[0], ast.Attribute) and \
+                                isinstance(args[0].value, ast.Name) and args[0].value.id == v and \
+                                unparse(args[1]) in [a.arg for a in mi.node.args.args]:
+                            return True, 'rollback handler present'
+                return False, 'the handler does not remove exactly the (index, key) pairs recorded before the rejection'
     return False, 'no handler undoes the keys collected so far'
 
 
@@ -301,6 +316,8 @@ SEEDS = [
     seed('rollback removed from _mk_indices', 'C11.R1',
          (_M, "            for obj_ref in all_keys:\n                obj_ref.index_dict.rm_key(obj_ref.key, obj)\n            raise",
           "            raise")),
+    seed('rollback removes from the rejecting index instead of the recorded one', 'C11.R1',
+         (_M, "                obj_ref.index_dict.rm_key(obj_ref.key, obj)\n            raise", "                index_definition.rm_key(obj_ref.key, obj)\n            raise")),
     seed('unique index stores before it checks', 'C11.R1',
          (_M, "            if k in self:\n                msg = f'key \"{k}\" in already in this UIndex'\n                raise KeyError(msg)\n            self[k] = [obj]",
           "            known = k in self\n            self[k] = [obj]\n            if known:\n                msg = f'key \"{k}\" in already in this UIndex'\n                raise KeyError(msg)")),
